@@ -9,11 +9,13 @@ from props import common as K
 
 META = {
     "level": "other",
+    "technique": "static analysis of type-checked MIR (rustc_private driver): writer/reader name-table extraction from match decision trees; raw-text call-site enumeration with argument provenance; byte-class extraction; panic-site enumeration over the parsers' reachable set",
     "explanation": "Writer/reader name tables for the provisioning, publication and identity-exchange messages (attribute "
                    "and element names written equal the literal patterns the parsers accept, extracted from the match "
                    "decision trees); the unescaped-text rule: every Content::raw call site is enumerated with the type and "
                    "provenance of its argument and every constructor that can put caller text into those fields is checked; "
-                   "attribute values always go through the escaping writer; the handle character class and length table.",
+                   "attribute values always go through the escaping writer; the handle character class and length table; the "
+                   "panic-capable constructs reachable from the XML parsing entry points are enumerated and discharged as in C04.",
     "not_decided": ["parse(write(m)) == m for all messages (value equality)",
                     "well-formedness for field values injected through serde Deserialize impls"],
     "trusted_base": ["quick-xml does not unescape in BytesText::decode", "base64 alphabet contains no XML-special characters"],
@@ -30,6 +32,7 @@ def run(ctx):
     ctx.rule("R-CLS", "byte classes by abstract interpretation")
     ctx.rule("R-REG", "decision table by abstract interpretation equals the spec")
     ctx.rule("R-FLOW", "operand provenance")
+    check_parsers_do_not_panic(ctx, f)
 
     # ---- C11.a name tables --------------------------------------------------------------
     for mod in MODS:
@@ -255,3 +258,45 @@ def _const_local(f, cname):
             m_ = re.match(r"^b'(.*)'$", K.arg_renders(c)[-1])
             return m_.group(1).encode() if m_ else None
     return None
+
+
+# ---------------------------------------------------------------------------------------------
+# C11.e — parsing arbitrary bytes as a CA-protocol message does not panic
+
+def check_parsers_do_not_panic(ctx, f):
+    """The C04 site enumeration, restricted to what is reachable from the XML parsing entry points of the three CA
+    protocols (everything taking an xml::decode reader / content, the attribute-value parsers — FromStr — of the ca
+    modules and the `parse` / `decode` functions)."""
+    from props import C04
+    from engine.callgraph import CallGraph
+    ctx.rule("R-PANIC", "panic-capable constructs reachable from the CA-protocol XML parsers are discharged or in the reviewed table")
+    entries = []
+    for n, r in f.fns.items():
+        if not r.get("has_body"):
+            continue
+        if not re.match(r"^<?(ca::(idexchange|provisioning|publication)|xml::decode)", n.replace("<", "", 1) if n.startswith("<") else n):
+            continue
+        ins = " ".join(r["inputs"])
+        if "xml::decode::" in ins or r["name"] in ("parse", "decode", "from_str", "try_from", "base64_decode", "ascii_into"):
+            entries.append(n)
+    cg = CallGraph(f)
+    reach, _ = C04.callback_closure(f, cg, entries)
+    sites = C04.enumerate_sites(f, reach)
+    table = C04.load_table()
+    cl = C04.classify(f, sites)
+    ctx.floor("R-PANIC", "XML parsing entry points of the CA protocols", len(entries), 40)
+    ctx.floor("R-PANIC", "panic-capable sites reachable from them", len(sites), 40)
+    by_key = {}
+    for s, rule, why_ in cl:
+        key = s.key()
+        if rule is None and key in table:
+            need = table[key].get("guards") or []
+            have = C04.site_guards(f, s) if need else []
+            if all(any(re.search(g, x) for x in have) for g in need):
+                rule, why_ = "P2-table", table[key]["reason"]
+        by_key.setdefault(key, []).append((s, rule, why_))
+    for key, lst in by_key.items():
+        bad = [x for x in lst if x[1] is None]
+        s, rule, why_ = (bad or lst)[0]
+        ctx.ob("R-PANIC", key, not bad, "%s in %s cannot fire [%s]" % (s.kind, short(s.fn), rule or "no rule applies and not in the reviewed table"),
+               where=s.where, detail={"rule": rule, "reason": why_, "operands": s.shape})
